@@ -552,9 +552,14 @@ def make_groups(ck, budget):
     g, fams = G.families(rng, budget)
 
     def group(fam, tree, limit):
-        return {'family': fam, 'tree': tree, 'ctx': g.context(tree), 'var_scope': rng.choice(('global', 'local', 'local', 'shadow')),
+        scope = rng.choice(('global', 'local', 'local', 'shadow', 'decoy'))
+        variants = g.assignments(tree, limit)
+        if scope == 'decoy':
+            # the decoy procedure only matters for leaves spelled through vals
+            variants = [[('c', 'val') if (m[0] == 'c' and m[1] in ('dec', 'hex', 'kw') and rng.random() < 0.7) else m for m in v] for v in variants]
+        return {'family': fam, 'tree': tree, 'ctx': g.context(tree), 'var_scope': scope,
                 'var_init': 'built' if rng.random() < 0.15 else 'lit', 'style': rng.choice((0, 0, 2, 3)),
-                'variants': g.assignments(tree, limit)}
+                'variants': variants}
     out = []
     total = 0
     scale = max(1, budget // 2000)
@@ -697,7 +702,7 @@ def summarise(ck, results, pool, mode):
         for p in r['pairs']:
             pairs += 1
             fams[g['family'].split('/')[0]] = fams.get(g['family'].split('/')[0], 0) + 1
-            ctxs[g['ctx']] = ctxs.get(g['ctx'], 0) + 1
+            ctxs[g['ctx'].split('/')[0]] = ctxs.get(g['ctx'].split('/')[0], 0) + 1
             wrap_pairs += 1 if wr else 0
             cmpov_pairs += 1 if ov else 0
             distinct.add(hashlib.sha1(repr((g['tree'], g['ctx'], [m[0] for m in p['modes']])).encode()).hexdigest())
@@ -714,6 +719,8 @@ def summarise(ck, results, pool, mode):
     ck.cov['rule'] = ('pair = (expression tree, context, leaf assignment with at least one compile-time leaf) compared with the all-variable program of the same tree; '
                       'trees: every operator over the special leaves {0,+-1,+-2,+-127,+-128,+-65535,+-65536,+-65537,2^31-1,-2^31,-2^31+1}, every (outer, inner) operator '
                       'pair at both operand positions, an operator pair over random operands to depth 4, random typed trees, wrapping sums/differences; '
+                      'contexts: assignment, exit actual, if / while condition, call actual, return value, subscript, and pick(K, .., idf(E), .., K) with equal constants K (immediate, val, pool) around an actual that contains a call; '
+                      'scopes: global / local variables, locals hiding global vals, and a decoy procedure defined earlier whose local vals carry the names of the global vals; '
                       'distinct by SHA-1 of (tree, context, const/var pattern); non-trivial = at least one compile-time leaf')
     ck.cov['families'] = fams
     ck.cov['contexts'] = ctxs
